@@ -929,3 +929,134 @@ pub fn dualstack_scenario(ch: &mut Chooser, _thorough: bool) -> Exec {
     }
     Exec { outcome: Digest::of64(&o), violation, features: vec![] }
 }
+
+/// C13, graceful close by drop with bytes still in flight: the connector writes `n` bytes and
+/// drops its stream `w` rounds later (0 = at once, the bytes are unacknowledged or not even
+/// sent yet); the acceptor reads to end-of-file and drops. Fixed latency, no loss. The
+/// acceptor must get every byte and then EOF (the dropping side had nothing unread, so its
+/// close is a FIN behind the data), and afterwards only the listener is left.
+pub fn drop_after_write_scenario(ch: &mut Chooser, _thorough: bool) -> Exec {
+    let lat: u32 = 1 + ch.choose("one_way_latency_rounds_minus_1", 3) as u32;
+    let caps = *ch.of("send_recv_caps", &[(4usize, 4usize), (64, 64), (512, 8)]);
+    let mtu = *ch.of("mtu", &[42u32, 1500]);
+    let n: usize = *ch.of("bytes_written_before_the_drop", &[1usize, 3, 40]);
+    let w: u32 = *ch.of("rounds_between_write_and_drop", &[0u32, 1, 3]);
+    let kc = KernelConfig::default().mtu(mtu).send_buf_cap(caps.0).recv_buf_cap(caps.1);
+    let mut net = Net::with_config(kc);
+    let (cip, sip): (IpAddr, IpAddr) = ("10.0.0.1".parse().unwrap(), "10.0.0.2".parse().unwrap());
+    let c = net.add_host(cip);
+    let s = net.add_host(sip);
+    let hosts = [c, s];
+    let guard = net.enter();
+    let round: Rc<RefCell<u32>> = Rc::new(RefCell::new(0));
+    #[derive(Default)]
+    struct Log {
+        read: Vec<u8>,
+        eof: bool,
+        err: Vec<String>,
+        done: [bool; 2],
+    }
+    let log: Rc<RefCell<Log>> = Rc::new(RefCell::new(Log::default()));
+    let mut exec = Executor::new();
+    {
+        let log = log.clone();
+        exec.spawn(1, async move {
+            let Ok(l) = TcpListener::bind(SocketAddr::new(sip, 80)).await else { return };
+            let Ok((mut st, _)) = l.accept().await else { return };
+            let mut buf = [0u8; 64];
+            loop {
+                match st.read(&mut buf).await {
+                    Ok(0) => {
+                        log.borrow_mut().eof = true;
+                        break;
+                    }
+                    Ok(k) => log.borrow_mut().read.extend_from_slice(&buf[..k]),
+                    Err(e) => {
+                        log.borrow_mut().err.push(format!("acceptor: read: {}", errk(&e)));
+                        break;
+                    }
+                }
+            }
+            drop(st);
+            log.borrow_mut().done[1] = true;
+            std::future::pending::<()>().await;
+            drop(l);
+        });
+    }
+    {
+        let (log, round) = (log.clone(), round.clone());
+        exec.spawn(0, async move {
+            let mut st = match TcpStream::connect(SocketAddr::new(sip, 80)).await {
+                Ok(s) => s,
+                Err(e) => {
+                    log.borrow_mut().err.push(format!("connect: {}", errk(&e)));
+                    return;
+                }
+            };
+            let data: Vec<u8> = (0..n).map(|i| (i % 200) as u8 + 1).collect();
+            if let Err(e) = st.write_all(&data).await {
+                log.borrow_mut().err.push(format!("connector: write: {}", errk(&e)));
+            }
+            let until = *round.borrow() + w;
+            std::future::poll_fn(|cx| {
+                if *round.borrow() >= until {
+                    std::task::Poll::Ready(())
+                } else {
+                    cx.waker().wake_by_ref();
+                    std::task::Poll::Pending
+                }
+            })
+            .await;
+            drop(st);
+            log.borrow_mut().done[0] = true;
+        });
+    }
+    let mut wire: VecDeque<(u32, turmoil_net::Packet)> = VecDeque::new();
+    let horizon = 300u32;
+    let mut reclaimed_at: Option<u32> = None;
+    for r in 0..horizon {
+        *round.borrow_mut() = r;
+        while wire.front().map(|(t, _)| *t <= r).unwrap_or(false) {
+            let (_, p) = wire.pop_front().unwrap();
+            guard.deliver(p);
+        }
+        exec.run_until_stalled(4000, |tag| turmoil_net::set_current(hosts[tag as usize]));
+        let mut out = vec![];
+        guard.egress_all(&mut out);
+        for p in out {
+            wire.push_back((r + lat, p));
+        }
+        let l = log.borrow();
+        if l.done[0] && l.done[1] {
+            let (cc, sc) = (turmoil_net::verif_counts(cip), turmoil_net::verif_counts(sip));
+            if cc.0 == 0 && sc.0 == 1 {
+                reclaimed_at = Some(r);
+                break;
+            }
+        }
+    }
+    let l = log.borrow();
+    let want: Vec<u8> = (0..n).map(|i| (i % 200) as u8 + 1).collect();
+    let what = format!("the connector wrote {n} bytes and dropped its stream {w} rounds later (latency {lat}, caps {caps:?}, mtu {mtu})");
+    let mut violation: Option<Violation> = None;
+    if !l.err.is_empty() {
+        violation = Some(Violation::new("aborted", format!("{what}: {:?}", l.err)));
+    } else if l.read != want || !l.eof {
+        violation = Some(Violation::new("stall", format!("{what}: after {horizon} rounds the acceptor has {} of {n} bytes, EOF seen: {}", l.read.len(), l.eof)));
+    } else if reclaimed_at.is_none() {
+        violation = Some(Violation::new(
+            "not-reclaimed",
+            format!("{what}: both sides are done, yet {horizon} rounds into the run the tables hold connector {:?}, acceptor {:?} (sockets, bindings, connections)", turmoil_net::verif_counts(cip), turmoil_net::verif_counts(sip)),
+        ));
+    }
+    drop(l);
+    drop(exec);
+    drop(guard);
+    let obs = format!("lat={lat} caps={caps:?} mtu={mtu} n={n} w={w} reclaimed_at={reclaimed_at:?}");
+    if let Some(v) = violation.as_mut() {
+        v.sig = format!("drop-after-write|{}", v.clause);
+        v.scenario = format!("c13-drop-after-write {obs}");
+        v.actions = vec![obs.clone()];
+    }
+    Exec { outcome: Digest::of64(&obs), violation, features: vec![] }
+}
